@@ -4,7 +4,7 @@ from __future__ import annotations
 import ast
 import typing as T
 
-from ..core import Undecided, norm, short, kwarg
+from ..core import Undecided, norm, kwarg
 from ..report import RuleCtx
 from .. import tables
 from ..tables import Atom, canon
@@ -334,7 +334,6 @@ def option_family(ctx: RuleCtx, mod: T.Any) -> T.Set[str]:
 
 def run(ctx: RuleCtx) -> None:
     mod = ctx.repo.module(OPT)
-    S.memo_imports(mod)
     string(ctx, mod)
     boolean(ctx, mod)
     integer(ctx, mod)
